@@ -76,6 +76,28 @@ Definition next_case_label (n_blocks : nat) (has_else : bool) (i : nat) (p : pos
   if Nat.ltb (S i) n_blocks then lbl KCase (S i) 0 p
   else if has_else then lbl KCaseElse 0 0 p else lbl KEndSelect 0 0 p.
 
+(** calls of the built-in subs DATA (arguments by value) and READ (arguments by reference: collected,
+    queued after the call, written back after the frame is popped) *)
+Definition push_val_code (items : list expr) : list ipos := flat_map (fun e => gen_expr e ++ [(IPushUnnamedByVal, epos e)]) items.
+
+Definition data_code (p : pos) (items : list expr) : list ipos :=
+  [(IBeginCollect, p)] ++ push_val_code items ++ [(IPushStack, p); (IBuiltinData, p); (IPopStack, p)].
+
+Fixpoint enqueue_code (targets : list (name * pos)) (i : nat) : list ipos :=
+  match targets with
+  | [] => []
+  | (_, q) :: t => (IEnqueue i, q) :: enqueue_code t (S i)
+  end.
+
+Definition collect_code (targets : list (name * pos)) : list ipos :=
+  flat_map (fun t => [(IVarPathName (fst t), snd t); (ICopyVarPathToA, snd t); (IPushUnnamedByRef, snd t)]) targets.
+Definition writeback_code (targets : list (name * pos)) : list ipos :=
+  flat_map (fun t => [(IDequeue, snd t); (IVarPathName (fst t), snd t); (ICopyAToVarPath, snd t)]) targets.
+
+Definition read_code (p : pos) (targets : list (name * pos)) : list ipos :=
+  [(IBeginCollect, p)] ++ collect_code targets ++
+  [(IPushStack, p); (IBuiltinRead, p)] ++ enqueue_code targets 0 ++ [(IPopStack, p)] ++ writeback_code targets.
+
 (** ** Statements. Fuel is only used to make the nested recursion structural; [size] always suffices. *)
 Fixpoint gen_stmt (fuel : nat) (s : stmt) (g : gout) {struct fuel} : gout :=
   match fuel with
@@ -169,13 +191,15 @@ Fixpoint gen_stmt (fuel : nat) (s : stmt) (g : gout) {struct fuel} : gout :=
                end) cases 0 g in
           let g := match els with Some b => block b (emit g [lab KCaseElse 0 0 p]) | None => g end in
           emit (mark g) [lab KEndSelect 0 0 p; (IPopA, p)]
+      | SData p items => emit g (data_code p items)
+      | SRead p targets => emit g (read_code p targets)
       end
   end.
 
 Fixpoint stmt_size (s : stmt) : nat :=
   let bsize := fix bsize (l : list stmt) : nat := match l with [] => 0 | x :: t => stmt_size x + bsize t end in
   S (match s with
-     | SAssign _ _ _ | SPrint _ _ => 0
+     | SAssign _ _ _ | SPrint _ _ | SData _ _ | SRead _ _ => 0
      | SIf _ _ thn elifs els =>
          bsize thn + (fix es (l : list (expr * list stmt)) : nat := match l with [] => 0 | (_, b) :: t => bsize b + es t end) elifs +
          match els with Some b => bsize b | None => 0 end
@@ -192,12 +216,14 @@ Definition max_pos : pos := (0, 0).
 (** the checker declares every implicitly declared variable in a DIM statement of its own placed in
     front of the program; the list (in the checker's order of discovery, with the position of the first use)
     is an input of the model *)
-Definition gen_dims (dims : list (name * pos)) : gout :=
+Definition gen_dims (dims : list (name * pos)) (g0 : gout) : gout :=
   fold_left (fun g d => emit (mark g) [(IAlloc (snd (fst d)), snd d); (IVarPathName (fst d), snd d); (ICopyAToVarPath, snd d)])
-            dims (mk_gout [] []).
+            dims g0.
 
+(** the DATA statements of the main program come first, before the implicit declarations *)
 Definition gen_program (dims : list (name * pos)) (p : program) : gout :=
-  let g := fold_left (fun g s => gen_stmt (S (stmt_size s)) s g) p (gen_dims dims) in
+  let gd := fold_left (fun g s => gen_stmt (S (stmt_size s)) s g) (filter is_data p) (mk_gout [] []) in
+  let g := fold_left (fun g s => gen_stmt (S (stmt_size s)) s g) (filter (fun s => negb (is_data s)) p) (gen_dims dims gd) in
   emit (mark g) [(IHalt, max_pos)].
 
 (** ** Label resolution: the address of a label is the index of its LAST definition *)
